@@ -29,6 +29,18 @@ def accuracy(Y1, Y2):
     z1, p1 = teneva.norm(sub(Y1, Y2), use_stab=True)
     z2, p2 = teneva.norm(Y2, use_stab=True)
 
+    # The mantissas are not rescaled when they are tiny (see core_stab), so
+    # their binary exponents are moved into p1 and p2 before the comparison:
+    if z1 > 0 and not np.isinf(z1):
+        q1 = int(np.floor(np.log2(z1)))
+        z1, p1 = z1 / 2.**q1, p1 + q1
+    if z2 > 0 and not np.isinf(z2):
+        q2 = int(np.floor(np.log2(z2)))
+        z2, p2 = z2 / 2.**q2, p2 + q2
+
+    if z1 == 0 and z2 > 0:
+        return 0.
+
     if p1 - p2 > 500:
         return 1.E+299
     if p1 - p2 < -500:
